@@ -223,6 +223,49 @@ pub fn families_c02(rng: &mut impl Rng, depth: usize) -> Vec<Case> {
         a.recompute(false); // nullifier over null_tc, tree over leaf_tc
         out.push(case("split-count", a));
     }
+    // alias splits: the two sites differ limb-wise but agree under a lossy recombination
+    // (hi*2^32+lo mod p, limb sums, limb permutations): a by-value equality instead of limb-wise copy constraints accepts them
+    {
+        let w = f(1u64 << 32);
+        let variants: Vec<[F; 2]> = vec![
+            [base.leaf_tc[0] - F::ONE, base.leaf_tc[1] + w],
+            [base.leaf_tc[0] + F::ONE, base.leaf_tc[1] - w],
+            [base.leaf_tc[0] + f(7), base.leaf_tc[1] - f(7) * w],
+            [base.leaf_tc[1], base.leaf_tc[0]],
+            [base.leaf_tc[0] + F::ONE, base.leaf_tc[1] - F::ONE],
+        ];
+        for v in variants {
+            if v == base.leaf_tc {
+                continue;
+            }
+            let mut a = base.clone();
+            a.null_tc = v;
+            a.recompute(false); // nullifier over the aliased limbs, tree over the real ones
+            out.push(case("split-count-alias", a));
+        }
+        // c + p spelled with 32-bit limbs: [2^32-1, c+1] for a small count c
+        let mut b2 = base.clone();
+        let c = rng.gen_range(0..(1u64 << 32) - 2);
+        b2.leaf_tc = [F::ZERO, f(c)];
+        b2.null_tc = b2.leaf_tc;
+        b2.recompute(false);
+        let mut a = b2.clone();
+        a.null_tc = [f((1u64 << 32) - 1), f(c + 1)];
+        a.recompute(false);
+        out.push(case("split-count-alias-p", a));
+        for _ in 0..3 {
+            let mut a = base.clone();
+            a.ua_secret = crate::wrapcheck::equal_alias_digest(rng, &base.null_secret);
+            a.ua_account = address_of(&a.ua_secret);
+            a.leaf_to = a.ua_account;
+            a.recompute(false);
+            out.push(case("split-secret-alias", a));
+            let mut a = base.clone();
+            a.leaf_to = crate::wrapcheck::equal_alias_digest(rng, &base.ua_account);
+            a.recompute(false);
+            out.push(case("split-account-alias", a));
+        }
+    }
     // split account: address = WA(s) but tree leaf pays another account
     {
         let mut a = base.clone();
